@@ -9,8 +9,8 @@ pub(crate) use verif_sched as vs;
 pub(crate) mod thread {
     //! `thread::spawn(closure)` stores the real closure; a harness later runs it ("the worker
     //! executes these queued commands now", "the sweeper performs one tick now").
-    pub(crate) const MAX_STASH: usize = 4;
-    pub(crate) static mut STASH: [Option<Box<dyn FnOnce() + Send>>; MAX_STASH] = [None, None, None, None];
+    pub(crate) const MAX_STASH: usize = 8;
+    pub(crate) static mut STASH: [Option<Box<dyn FnOnce() + Send>>; MAX_STASH] = [None, None, None, None, None, None, None, None];
     pub(crate) static mut SPAWNED: usize = 0;
     pub(crate) struct JoinHandle;
     pub(crate) fn spawn<F>(f: F) -> JoinHandle where F: FnOnce() + Send + 'static {
@@ -42,20 +42,20 @@ pub(crate) mod atomic {
     //! Sequentially consistent (CBMC executes Kani programs that way; weak memory is outside the claim).
     use core::cell::Cell;
     use std::sync::atomic::Ordering;
-    pub struct AtomicBool { v: Cell<bool> }
+    pub struct AtomicBool { v: Cell<u64> }   // 8 bytes wide: keeps the structs that embed it free of padding
     unsafe impl Sync for AtomicBool {}
     unsafe impl Send for AtomicBool {}
     impl AtomicBool {
-        pub const fn new(v: bool) -> Self { AtomicBool { v: Cell::new(v) } }
-        pub fn load(&self, _o: Ordering) -> bool { verif_sched::schedule_point(verif_sched::S_ATOMIC); self.v.get() }
-        pub fn store(&self, v: bool, _o: Ordering) { verif_sched::schedule_point(verif_sched::S_ATOMIC); self.v.set(v) }
-        pub fn swap(&self, v: bool, _o: Ordering) -> bool { verif_sched::schedule_point(verif_sched::S_ATOMIC); self.v.replace(v) }
+        pub const fn new(v: bool) -> Self { AtomicBool { v: Cell::new(v as u64) } }
+        pub fn load(&self, _o: Ordering) -> bool { verif_sched::schedule_point(verif_sched::S_ATOMIC); self.v.get() != 0 }
+        pub fn store(&self, v: bool, _o: Ordering) { verif_sched::schedule_point(verif_sched::S_ATOMIC); self.v.set(v as u64) }
+        pub fn swap(&self, v: bool, _o: Ordering) -> bool { verif_sched::schedule_point(verif_sched::S_ATOMIC); self.v.replace(v as u64) != 0 }
         pub fn compare_exchange(&self, cur: bool, new: bool, _s: Ordering, _f: Ordering) -> Result<bool, bool> {
             verif_sched::schedule_point(verif_sched::S_ATOMIC);
-            let old = self.v.get();
-            if old == cur { self.v.set(new); Ok(old) } else { Err(old) }
+            let old = self.v.get() != 0;
+            if old == cur { self.v.set(new as u64); Ok(old) } else { Err(old) }
         }
-        pub fn vk_peek(&self) -> bool { self.v.get() }
+        pub fn vk_peek(&self) -> bool { self.v.get() != 0 }
     }
 }
 
@@ -67,40 +67,87 @@ pub(crate) mod collections {
     pub(crate) const SCAP: usize = 4;
     pub(crate) const MCAP: usize = 10;
 
-    pub struct HashSet<T> { used: [bool; SCAP], items: [MaybeUninit<T>; SCAP] }
+    pub struct HashSet<T> { used: [u64; SCAP], items: [MaybeUninit<T>; SCAP] }
     impl<T: Eq> HashSet<T> {
-        pub fn new() -> Self { HashSet { used: [false; SCAP], items: unsafe { MaybeUninit::uninit().assume_init() } } }
+        pub fn new() -> Self { HashSet { used: [0; SCAP], items: unsafe { MaybeUninit::uninit().assume_init() } } }
         #[inline(always)]
         fn find<Q>(&self, v: &Q) -> usize where T: Borrow<Q>, Q: Eq + ?Sized {
             let mut idx = SCAP; let mut i = 0;
-            while i < SCAP { if idx == SCAP && self.used[i] && unsafe { self.items[i].assume_init_ref() }.borrow() == v { idx = i; } i += 1; }
+            while i < SCAP { if idx == SCAP && self.used[i] != 0 && unsafe { self.items[i].assume_init_ref() }.borrow() == v { idx = i; } i += 1; }
             idx
         }
         pub fn contains<Q>(&self, v: &Q) -> bool where T: Borrow<Q>, Q: Eq + ?Sized { self.find(v) < SCAP }
         pub fn insert(&mut self, v: T) -> bool {
             if self.find(&v) < SCAP { core::mem::forget(v); return false; }
             let mut f = SCAP; let mut i = 0;
-            while i < SCAP { if f == SCAP && !self.used[i] { f = i; } i += 1; }
+            while i < SCAP { if f == SCAP && self.used[i] == 0 { f = i; } i += 1; }
             if f >= SCAP { kani::assume(false); f = 0; }
-            self.used[f] = true; self.items[f] = MaybeUninit::new(v);
+            self.used[f] = 1; self.items[f] = MaybeUninit::new(v);
             true
         }
         pub fn remove<Q>(&mut self, v: &Q) -> bool where T: Borrow<Q>, Q: Eq + ?Sized {
             let idx = self.find(v);
-            if idx < SCAP { self.used[idx] = false; true } else { false }
+            if idx < SCAP { self.used[idx] = 0; true } else { false }
         }
-        pub fn len(&self) -> usize { let mut n = 0; let mut i = 0; while i < SCAP { if self.used[i] { n += 1; } i += 1; } n }
+        pub fn len(&self) -> usize { let mut n = 0; let mut i = 0; while i < SCAP { if self.used[i] != 0 { n += 1; } i += 1; } n }
         pub fn is_empty(&self) -> bool { self.len() == 0 }
-        pub fn clear(&mut self) { let mut i = 0; while i < SCAP { self.used[i] = false; i += 1; } }
+        pub fn clear(&mut self) { let mut i = 0; while i < SCAP { self.used[i] = 0; i += 1; } }
     }
 
-    pub struct HashMap<K, V> { used: [bool; MCAP], keys: [MaybeUninit<K>; MCAP], vals: [MaybeUninit<V>; MCAP] }
+    /// `std::collections::BinaryHeap` stand-in.  Contract kept: `pop` returns A greatest element under the
+    /// element type's own `Ord` (the crate's real comparator runs); which one among equal maxima follows
+    /// VERIF_SEED's parity (std leaves it unspecified).  std's heap moves elements with `ptr::copy_nonoverlapping` /
+    /// `mem::swap`; for `SampledKey` (24 bytes, 7 of them padding) that defeats CBMC's constant propagation and
+    /// makes the eviction loop ~50x more expensive.
+    pub struct BinaryHeap<T> { used: [u64; SCAP], items: [MaybeUninit<T>; SCAP], n: usize }
+    impl<T: Ord> BinaryHeap<T> {
+        pub fn new() -> Self { BinaryHeap { used: [0; SCAP], items: unsafe { MaybeUninit::uninit().assume_init() }, n: 0 } }
+        pub fn len(&self) -> usize { self.n }
+        pub fn is_empty(&self) -> bool { self.n == 0 }
+        pub fn push(&mut self, v: T) {
+            let mut f = SCAP; let mut i = 0;
+            while i < SCAP { if f == SCAP && self.used[i] == 0 { f = i; } i += 1; }
+            if f >= SCAP { kani::assume(false); f = 0; }
+            self.used[f] = 1; self.items[f] = MaybeUninit::new(v); self.n += 1;
+        }
+        /// index of a greatest element; ties: the first one in slot order when VERIF_SEED is even, the last
+        /// one when it is odd (std leaves the choice among equal maxima unspecified)
+        #[inline(always)]
+        fn max_index(&self) -> usize {
+            let last = crate::cache::vk_cfg::SEED % 2 == 1;
+            let mut best = SCAP; let mut i = 0;
+            while i < SCAP {
+                if self.used[i] != 0 {
+                    if best == SCAP { best = i; }
+                    else {
+                        let c = unsafe { self.items[i].assume_init_ref() }.cmp(unsafe { self.items[best].assume_init_ref() });
+                        if c == core::cmp::Ordering::Greater || (last && c == core::cmp::Ordering::Equal) { best = i; }
+                    }
+                }
+                i += 1;
+            }
+            best
+        }
+        pub fn pop(&mut self) -> Option<T> {
+            if self.n == 0 { return None; }
+            let j = self.max_index();
+            self.used[j] = 0; self.n -= 1;
+            Some(unsafe { self.items[j].assume_init_read() })
+        }
+        pub fn peek(&self) -> Option<&T> {
+            if self.n == 0 { return None; }
+            Some(unsafe { self.items[self.max_index()].assume_init_ref() })
+        }
+        pub fn clear(&mut self) { let mut i = 0; while i < SCAP { self.used[i] = 0; i += 1; } self.n = 0; }
+    }
+
+    pub struct HashMap<K, V> { used: [u64; MCAP], keys: [MaybeUninit<K>; MCAP], vals: [MaybeUninit<V>; MCAP] }
     impl<K: Eq, V> HashMap<K, V> {
-        pub fn new() -> Self { HashMap { used: [false; MCAP], keys: unsafe { MaybeUninit::uninit().assume_init() }, vals: unsafe { MaybeUninit::uninit().assume_init() } } }
+        pub fn new() -> Self { HashMap { used: [0; MCAP], keys: unsafe { MaybeUninit::uninit().assume_init() }, vals: unsafe { MaybeUninit::uninit().assume_init() } } }
         #[inline(always)]
         fn find<Q>(&self, k: &Q) -> usize where K: Borrow<Q>, Q: Eq + ?Sized {
             let mut idx = MCAP; let mut i = 0;
-            while i < MCAP { if idx == MCAP && self.used[i] && unsafe { self.keys[i].assume_init_ref() }.borrow() == k { idx = i; } i += 1; }
+            while i < MCAP { if idx == MCAP && self.used[i] != 0 && unsafe { self.keys[i].assume_init_ref() }.borrow() == k { idx = i; } i += 1; }
             idx
         }
         pub fn insert(&mut self, k: K, v: V) -> Option<V> {
@@ -112,9 +159,9 @@ pub(crate) mod collections {
                 return Some(old);
             }
             let mut f = MCAP; let mut i = 0;
-            while i < MCAP { if f == MCAP && !self.used[i] { f = i; } i += 1; }
+            while i < MCAP { if f == MCAP && self.used[i] == 0 { f = i; } i += 1; }
             if f >= MCAP { kani::assume(false); f = 0; }
-            self.used[f] = true; self.keys[f] = MaybeUninit::new(k); self.vals[f] = MaybeUninit::new(v);
+            self.used[f] = 1; self.keys[f] = MaybeUninit::new(k); self.vals[f] = MaybeUninit::new(v);
             None
         }
         pub fn get<Q>(&self, k: &Q) -> Option<&V> where K: Borrow<Q>, Q: Eq + ?Sized {
@@ -122,7 +169,7 @@ pub(crate) mod collections {
             if idx < MCAP { Some(unsafe { self.vals[idx].assume_init_ref() }) } else { None }
         }
         pub fn contains_key<Q>(&self, k: &Q) -> bool where K: Borrow<Q>, Q: Eq + ?Sized { self.find(k) < MCAP }
-        pub fn len(&self) -> usize { let mut n = 0; let mut i = 0; while i < MCAP { if self.used[i] { n += 1; } i += 1; } n }
+        pub fn len(&self) -> usize { let mut n = 0; let mut i = 0; while i < MCAP { if self.used[i] != 0 { n += 1; } i += 1; } n }
         pub fn is_empty(&self) -> bool { self.len() == 0 }
     }
     impl<K: Eq, V> FromIterator<(K, V)> for HashMap<K, V> {
@@ -133,7 +180,7 @@ pub(crate) mod collections {
             if self.len() != o.len() { return false; }
             let mut ok = true; let mut i = 0;
             while i < MCAP {
-                if self.used[i] { match o.get(unsafe { self.keys[i].assume_init_ref() }) { Some(v) => { if v != unsafe { self.vals[i].assume_init_ref() } { ok = false; } } None => { ok = false; } } }
+                if self.used[i] != 0 { match o.get(unsafe { self.keys[i].assume_init_ref() }) { Some(v) => { if v != unsafe { self.vals[i].assume_init_ref() } { ok = false; } } None => { ok = false; } } }
                 i += 1;
             }
             ok
